@@ -86,6 +86,10 @@ CORPUS = {
     'P15c_losing_candidate_needed_by_main_pipeline': spec([
         node(0), node(1), node(2, [('a', inp(0))]), node(3, [('a', {'kind': 'oneof', 'cands': [1, 2]})]),
         node(4, [('a', inp(3)), ('b', inp(2))])]),
+    # a recurrent subgraph inside a one-of candidate whose start node fails in the iteration after the other nodes were
+    # launched: `_run_recurrent_subgraph` stopped silently, the destination kept its Recurrent result and the one-of
+    # waited forever (thorough C02 run, seed 21; fix ba2b010)
+    'P22_rec_in_candidate_stops_on_late_error': json.loads(r'''{"input": 0, "input_kwargs": {"x": "w"}, "nodes": [{"attempts": null, "body": {"kind": "prov"}, "delay": null, "exceptions": null, "fails": [], "has_additional": false, "is_rec": false, "marks": [], "mode": "coro", "name": "N0", "plain": ["x"], "recur_k": 0, "use_default": false}, {"attempts": null, "body": {"kind": "prov"}, "delay": null, "exceptions": null, "fails": [], "has_additional": false, "is_rec": false, "marks": [["a", {"kind": "input", "src": 0}]], "mode": "coro", "name": "N1", "plain": [], "recur_k": 0, "use_default": false}, {"attempts": null, "body": {"kind": "prov"}, "delay": null, "exceptions": null, "fails": [[0, 1, "E1"], [0, 2, "E1"]], "has_additional": true, "is_rec": false, "marks": [["a", {"kind": "input", "src": 0}]], "mode": "coro", "name": "N2", "plain": [], "recur_k": 0, "use_default": false}, {"attempts": null, "body": {"kind": "prov"}, "delay": null, "exceptions": null, "fails": [], "has_additional": false, "is_rec": false, "marks": [["a", {"cands": [1, 2], "kind": "oneof"}]], "mode": "coro", "name": "N3", "plain": [], "recur_k": 0, "use_default": false}, {"attempts": null, "body": {"kind": "const", "v": null}, "delay": null, "exceptions": null, "fails": [], "has_additional": false, "is_rec": false, "marks": [["a", {"cands": [3], "kind": "oneof"}]], "mode": "coro", "name": "N4", "plain": [], "recur_k": 0, "use_default": false}, {"attempts": null, "body": {"kind": "prov"}, "delay": null, "exceptions": null, "fails": [], "has_additional": false, "is_rec": true, "marks": [["a", {"cands": [4], "kind": "oneof"}]], "mode": "coro", "name": "N5", "plain": [], "recur_k": 2, "use_default": true}, {"attempts": null, "body": {"kind": "prov"}, "delay": null, "exceptions": null, "fails": [[0, 1, "E2"], [0, 2, "E2"]], "has_additional": false, "is_rec": false, "marks": [["a", {"dest": 5, "kind": "rec", "max": 1, "start": 2}]], "mode": "coro", "name": "N6", "plain": [], "recur_k": 0, "use_default": true}, {"attempts": null, "body": {"kind": "prov"}, "delay": null, "exceptions": null, "fails": [[0, 1, "E1"], [0, 2, "E1"]], "has_additional": false, "is_rec": false, "marks": [["a", {"kind": "input", "src": 0}]], "mode": "coro", "name": "N7", "plain": [], "recur_k": 0, "use_default": false}, {"attempts": null, "body": {"kind": "const", "v": null}, "delay": null, "exceptions": null, "fails": [[0, 1, "E2"]], "has_additional": false, "is_rec": false, "marks": [["a", {"cands": [7, 6], "kind": "oneof"}]], "mode": "coro", "name": "N8", "plain": [], "recur_k": 0, "use_default": true}], "output": 8}'''),
 }
 
 
